@@ -95,7 +95,7 @@ func propC05(t *rapid.T) {
 	switch entry {
 	case 0:
 		chunking = drawChunking(t, "chunking")
-		r := &chunkReader{data: stream, sizes: chunking}
+		r := &chunkReader{data: stream, sizes: chunking, eofWithData: garbage == 0 && rapid.Bool().Draw(t, "eofWithData")}
 		rn, err = recv.ReadFrom(r)
 		consumed = r.pos
 	case 1:
